@@ -1305,9 +1305,11 @@ func evaluationsCloseOnlyWhatTheyOpened(c *core.Ctx) {
 					continue
 				}
 				cal := call.Call.StaticCallee()
-				if cal == nil || cal.Name() != "NewFile" || cal.Pkg == nil || core.RelPkg(cal.Pkg.Pkg) != "object" || len(call.Call.Args) < 2 {
+				if cal == nil || cal.Pkg == nil || core.RelPkg(cal.Pkg.Pkg) != "object" || len(call.Call.Args) < 2 ||
+					cal.Signature.Results().Len() != 1 || !core.IsNamed(cal.Signature.Results().At(0).Type(), pkgPath("object"), "File") {
 					continue
 				}
+				watched := spawnsGoroutine(cal, 3)
 				host := ""
 				for _, o := range core.Origins(call.Call.Args[1]) {
 					if ic, ok := o.(*ssa.Call); ok && ic.Call.IsInvoke() {
@@ -1318,7 +1320,9 @@ func evaluationsCloseOnlyWhatTheyOpened(c *core.Ctx) {
 					}
 				}
 				if host == "" {
-					opened++
+					if watched {
+						opened++
+					}
 					continue
 				}
 				n++
@@ -1326,13 +1330,36 @@ func evaluationsCloseOnlyWhatTheyOpened(c *core.Ctx) {
 				for owner.Parent() != nil {
 					owner = owner.Parent()
 				}
-				c.Check(false, core.SSAName(owner)+"|host-stream-tied-to-context|"+host, p.Pos(call.Pos()),
-					fn.Name()+" wraps the host's "+host+"() in a file object that is closed when the evaluation's context ends: after one cancelled evaluation the stream is closed for the host and for every other evaluation")
+				c.Check(!watched, core.SSAName(owner)+"|host-stream-tied-to-context|"+host, p.Pos(call.Pos()),
+					fn.Name()+" wraps the host's "+host+"() through "+cal.Name()+", which starts a watcher that closes the file when the evaluation's context ends: after one cancelled evaluation the stream is closed for the host and for every other evaluation")
 			}
 		}
 	}
 	c.Check(opened > 0, "control|files-opened-by-scripts", "", sprintf("%d file objects made for files a script opened (positive control), %d for host streams", opened, n))
 	c.Stat("host_streams_wrapped", n)
+}
+
+// spawnsGoroutine reports whether f, or a function it calls statically within
+// depth levels, contains a go statement.
+func spawnsGoroutine(f *ssa.Function, depth int) bool {
+	if f == nil || f.Blocks == nil {
+		return false
+	}
+	for _, b := range f.Blocks {
+		for _, in := range b.Instrs {
+			switch in := in.(type) {
+			case *ssa.Go:
+				return true
+			case *ssa.Call:
+				if depth > 0 {
+					if cal := in.Call.StaticCallee(); cal != nil && spawnsGoroutine(cal, depth-1) {
+						return true
+					}
+				}
+			}
+		}
+	}
+	return false
 }
 
 // ---------------------------------------------------------------------------
